@@ -42,6 +42,12 @@ def kernel_configs(ctx):
     out.append(("sym", 3, "plus", 0, "wf", 7, 1.5, 1, False, False))
     for i in (0, 1):
         out.append(("sym", 4, "plus", i, "wf", 7 if q else 8, 2.5, 1, False, False))
+    # the old paths carry the label of another move type (paths migrate between ensembles through swaps):
+    # the move must be balanced whatever produced the path it starts from
+    out.append(("sym", 3, "plus", 1, "sh", 7, None, None, False, "wf"))
+    out.append(("drift", 3, "plus", 0, "sh", 7, None, None, False, "wf"))
+    out.append(("sym", 3, "plus", 1, "wf", 6, None, 1, False, "sh"))
+    out.append(("sym", 3, "minus", 0, "sh", 7, None, None, False, "00"))
     # the same kernels with the order-parameter axis moved so that the cap / lambda_0 is exactly 0.0
     # (name 'sym@<shift>', see vf/lattice.SHIFT; weights and spaces are those of the unshifted system)
     out.append(("sym@-2.5", 4, "plus", 1, "wf", 6, 2.5, 1, False, False))
